@@ -14,7 +14,7 @@ FUNCTIONS = ['lentil.plane.Plane.__init__', 'lentil.plane.Plane.multiply#arrays'
              'lentil.wavefront.Wavefront.insert#2', 'lentil.wavefront.Wavefront.field#2', 'lentil.wavefront.Wavefront.intensity#2',
              'lentil.propagate.propagate_dft', 'lentil.propagate.propagate_fft#scratch', 'lentil.propagate.propagate_fft#no-scratch',
              'lentil.util.pad', 'lentil.detector.collect_charge#cube-vector-qe',
-             'lentil.detector.collect_charge_bayer#RGGB,os=2,flat'] + list(_d.ADC)
+             'lentil.detector.collect_charge_bayer#RGGB,os=2,flat', 'lentil.util.rescale#cubic-nearest-callers-mask'] + list(_d.ADC)
 LEMMAS = [l for l in _s.lemmas()]
 SHARDS = {'lentil.field.insert#array': 3, 'lentil.plane.Plane.multiply#arrays': 2, 'lentil.plane.Plane.multiply#pupil': 2,
           'lentil.plane.Plane.multiply#fitted-tilts': 6}
